@@ -175,6 +175,7 @@ def C11(rep, prog, tier):
     table = wrappers.dispatch(rep, ex)
     wrappers.backend_dispatch(rep, ex)
     wrappers.manager_init(rep, ex, roles=("belief_base", "inference_system", "smt_solver", "pmaxsat_solver"))
+    mcsops.object_identity(rep, ex)
     _mcs_operators(rep, ex, table)
     enum.loop(rep, ex)
     enum.violated(rep, ex)
@@ -191,11 +192,20 @@ def C09(rep, prog, tier):
     table = wrappers.dispatch(rep, ex, report=False)
     keep = {"SHORTCUT.guard", "SHORTCUT.dominance", "Z.decision", "Z.tests", "Z.layer-assert", "W.subset-test", "W.decision", "W.soft/hard",
             "LEX.cardinality", "LEX.strict-shortcuts", "LEX.soft/hard", "CNF.roles", "CNF.literals", "CNF.constants", "C.query-edges",
-            "Z.start", "W.start", "LEX.start", "LEX.tie-constraints", "LEX.tie-quantifier", "LEX.balance", "W.balance", "W.ignore", "LEX.ignore"}
+            "Z.start", "W.start", "LEX.start", "LEX.tie-constraints", "LEX.tie-quantifier", "LEX.balance", "W.balance", "W.ignore", "LEX.ignore",
+            # direct inference: every conditional of the base stays in the base the operator reasons about (no key collision),
+            # and c-inference's early exit fires only when *no* conditional can be falsified
+            "KEY.no-reserved", "C01.negation", "C.selffulfilling", "C.relations"}
     rep.only = keep
     try:
         wrappers.shortcut_guard(rep, ex)
         wrappers.shortcut_dominance(rep, ex)
+        cls = _class_of(table, ("p-entailment", None))
+        if cls:
+            pent.check(rep, ex, cls, strict=True, extended=False, keys=True, floors=False)
+        cls = _class_of(table, ("c-inference", None))
+        if cls:
+            cinf.answer(rep, ex, cls)
         cls = _class_of(table, ("system-z", None))
         if cls:
             sysz.rec(rep, ex, cls)
@@ -227,7 +237,10 @@ def C12(rep, prog, tier):
                        "Invariance under reordering, renaming and equivalent rewriting is semantic and not decided")
     ex = Explorer(prog, rep)
     table = wrappers.dispatch(rep, ex, report=False)
-    keep = {"KEY.no-reserved", "KEY.no-positional", "NONINTERF", "W.query-slot", "LEX.query-slot",
+    keep = {"KEY.no-reserved", "KEY.no-positional", "NONINTERF", "W.query-slot", "LEX.query-slot", "OBJ.identity",
+            # what is fixed for one tie must not stay in force for the next one: otherwise the answer depends on the order in
+            # which ties are enumerated, i.e. on the listing order of the base
+            "LEX.balance", "W.balance", "LEX.tie-constraints", "W.decision",
             # necessary for invariance under reordering / equivalent rewriting: an early exit that looks at all conditionals,
             # constants evaluated instead of named
             "C.selffulfilling", "C.relations", "CNF.constants"}
@@ -248,6 +261,11 @@ def C12(rep, prog, tier):
                 be = mcsops.Backend(name, cls, lex=lex)
                 site, paths = mcsops.w_entry(rep, ex, be, strict=True, extended=True, prefix="LEX" if lex else "W", keys=True, n_objects=2 if lex else 1)
                 wrappers.noninterference(rep, ex, site, paths)
+                if lex:
+                    mcsops.lex_rec(rep, ex, be)
+                    mcsops.lex_ties(rep, ex, be)
+                else:
+                    mcsops.w_rec(rep, ex, be)
         cls = _class_of(table, ("c-inference", None))
         if cls:
             cinf.key_discipline(rep, ex, cls)
@@ -256,6 +274,7 @@ def C12(rep, prog, tier):
             cinf.answer(rep, ex, cls)
             wrappers.noninterference(rep, ex, f"inference/c_inference.py:{cls.rsplit('.', 1)[1]}._inference", ex.cache.get((f"{cls}._inference", "cinf"), []))
         cnf.constants_handling(rep, ex)
+        mcsops.object_identity(rep, ex)
     finally:
         rep.only = None
 
@@ -295,6 +314,12 @@ def C13(rep, prog, tier):
     wrappers.init_preserves_state(rep, ex)
     wrappers.rows(rep, ex)
     wrappers.refuse_manager(rep, ex, rules=("ROWS.key",))
+    # what a query is translated to depends on that query only (no memo across queries keyed by a presentation)
+    rep.only = {"CNF.roles"}
+    try:
+        cnf.roles(rep, ex)
+    finally:
+        rep.only = None
     wrappers.refuse(rep, ex, rules=("PREPROC.once",))
     rep.only = {"STATE.solver-per-query"}
     try:
@@ -358,6 +383,17 @@ def C14(rep, prog, tier):
     try:
         for site, paths in _operator_inference_paths(rep, ex, table):
             wrappers.solver_per_query(rep, site, paths)
+    finally:
+        rep.only = None
+    # the operators that look at the deadline themselves (z3 back-ends): having seen it expired they may go on without a
+    # solver timeout or raise, but an answer given in front of the layer recursion must still follow from the query alone
+    rep.only = {"W.start", "LEX.start"}
+    try:
+        for key, lex in ((("system-w", True), False), (("lex_inf", True), True)):
+            cls = _class_of(table, key)
+            if cls:
+                be = mcsops.Backend("z3", cls, lex=lex)
+                mcsops.w_entry(rep, ex, be, strict=True, extended=True, prefix="LEX" if lex else "W", n_objects=2 if lex else 1)
     finally:
         rep.only = None
 
